@@ -27,7 +27,7 @@ structure Params where
 
 /-- state of the stateful op streams (each has an explicit reset op) -/
 structure DState where
-  svc : QiVerif.Service.Svc := {}
+  svc : QiVerif.ServiceAdd.SvcW := {}
   ep : C17.St := {}
   cl : QiVerif.Client.W := {}
   au : C06.St := {}
